@@ -1,6 +1,6 @@
 """C14: soft requirements are best-effort and never harm the hard problem."""
 import vlib
-from props import solverstream as ss, tracecheck as tc, antie
+from props import solverstream as ss, tracecheck as tc, antie, solvertie
 
 THEOREMS = ["C14_valid", "C14_never_error", "C14_hard_independent_of_soft", "C14_accept_oracle_sound", "C14_accept_step_meaning",
             "C14_analysis_keeps_earlier_solution", "C14_soft_keeps_earlier_decisions", "C14_soft_keeps_assignments"]
@@ -59,7 +59,13 @@ def run(res, tier, seed, replay):
     ss.oracle_sat(recs)
     tc.annotate(recs)
     antie.annotate(recs)
+    solvertie.annotate(recs)
     for r in recs:
+        if not solvertie.ok(r):
+            res.tie_break(f"whole-run correspondence no longer checks for a synchronous run with soft requirements in {r['stream']}: the "
+                          f"result, the sequence of trail events (incl. which soft requirements are tried, accepted, rejected), the clause "
+                          f"database or the provider calls differ from the model of Solver::solve (Cdcl/Solver.v): {r['solver']}",
+                          dict(ss.replay_obj(r), solver_model=r["solver"]))
         if not antie.ok(r):
             res.tie_break(f"conflict-analysis correspondence no longer checks for a run with soft requirements in {r['stream']}: a "
                           f"learnt clause, the number of pops, the backjump level (model: never below the level the soft run started at, "
@@ -114,6 +120,7 @@ def run(res, tier, seed, replay):
                 "locked-out, Unknown-dependency and never-fetched solvables) over classes small/conflict/greedy; non-trivial = Ok "
                 "outcome with >= 2 distinct soft requirements; 'applicable' = every soft step is clear-cut for the verified oracle")
     res.extra.update(antie.stats(recs))
+    res.extra.update(solvertie.stats(recs))
     res.extra.update({"accept_oracle_applicable": applicable, "accepted_soft_checked": accepted_checked,
                       "poisoned_cases": known_poison, "hangs": len(hangs)}, **tc.stats(recs))
     return res.finish(CHECKER, vlib.TRUSTED_BASE,
